@@ -48,7 +48,7 @@ func NewCall(cmd MesosCommand) *Call {
 	return &Call{
 		Request:  cmd,
 		Response: nil,
-		Done:     make(chan empty),
+		Done:     make(chan empty, 1), // room for the one completion: a reply racing with the timeout must not block its sender
 		Error:    nil,
 	}
 }
